@@ -104,6 +104,21 @@ Proof.
   apply skipn_two.
 Qed.
 
+(* a comparison of the Rust source may be spelled either way round (`a < b` | `!(b <= a)` | `b > a` ..): decide every
+   spelling from the arithmetic fact *)
+Lemma cmp_lt : forall a b, a < b -> (a <? b) = true /\ (b <=? a) = false /\ (a <=? b) = true /\ (b <? a) = false /\ (a =? b) = false /\ (b =? a) = false.
+Proof.
+  intros a b H. repeat split; [apply N.ltb_lt|apply N.leb_gt|apply N.leb_le|apply N.ltb_ge|apply N.eqb_neq|apply N.eqb_neq]; lia.
+Qed.
+Lemma cmp_ge : forall a b, b <= a -> (a <? b) = false /\ (b <=? a) = true.
+Proof. intros a b H. split; [apply N.ltb_ge|apply N.leb_le]; lia. Qed.
+Ltac decide_lt H :=
+  let E1 := fresh in let E2 := fresh in let E3 := fresh in let E4 := fresh in let E5 := fresh in let E6 := fresh in
+  destruct (cmp_lt _ _ H) as (E1 & E2 & E3 & E4 & E5 & E6); rewrite ?E1, ?E2, ?E3, ?E4, ?E5, ?E6; cbn [negb].
+Ltac decide_ge H :=
+  let E1 := fresh in let E2 := fresh in
+  destruct (cmp_ge _ _ H) as (E1 & E2); rewrite ?E1, ?E2; cbn [negb].
+
 (* ---- the invariant ----------------------------------------------------------------------------- *)
 
 Lemma rep_len_le : forall v l, rep v l -> len l <= cap.
@@ -135,7 +150,10 @@ Lemma g_av_is_empty_eq : forall v l, rep v l -> g_av_is_empty T v = avl_is_empty
 Proof. intros v l H. unfold g_av_is_empty, avl_is_empty. rewrite (g_av_len_eq v l H). reflexivity. Qed.
 
 Lemma g_av_is_full_eq : forall v l, rep v l -> g_av_is_full T cap v = avl_is_full cap l.
-Proof. intros v l H. unfold g_av_is_full, avl_is_full, g_av_capacity. rewrite (g_av_len_eq v l H). reflexivity. Qed.
+Proof.
+  intros v l H. unfold g_av_is_full, avl_is_full, g_av_capacity. rewrite (g_av_len_eq v l H). unfold avl_len.
+  first [reflexivity | rewrite N.eqb_sym; reflexivity].     (* `len == capacity` in either order *)
+Qed.
 
 Lemma g_av_remaining_capacity_eq : forall v l, rep v l ->
   g_av_remaining_capacity T cap v = avl_remaining cap l /\ avl_remaining cap l = Some (cap - len l).
@@ -224,16 +242,23 @@ Lemma g_avi_push_unchecked_room : forall v l x, rep v l -> len l < cap ->
   exists v', g_avi_push_unchecked T cap v x = Some v' /\ rep v' (l ++ [x]).
 Proof.
   intros v l x H Hroom. pose proof H as (Hc & Hx & Hl & rest & Hr).
-  unfold g_avi_push_unchecked. cbv zeta. rewrite (g_avi_len_eq v l H). unfold avl_len.
-  apply N.ltb_lt in Hroom as Hroom'. rewrite Hroom'. rewrite g_avi_as_mut_ptr_eq. cbv beta iota zeta.
-  unfold av_ptr_add. replace (0 + len l) with (len l) by lia.
   (* there is a slot after the initialised prefix *)
   destruct rest as [|y rest].
   { rewrite Hr, app_nil_r, len_map in Hx. lia. }
-  rewrite Hr, ptr_write_next.
-  rewrite g_avi_set_len_eq by (try exact Hc; lia).
+  unfold g_avi_push_unchecked. cbv zeta. rewrite (g_avi_len_eq v l H). unfold avl_len.
+  decide_lt Hroom.
+  (* the write and set_len, in whichever order the source has them *)
+  repeat first
+    [ rewrite g_avi_set_len_eq by (try exact Hc; lia)
+    | rewrite g_avi_as_mut_ptr_eq
+    | progress cbv beta iota zeta
+    | progress (unfold set_av_len, set_av_xs, av_ptr_add)
+    | progress cbn [fst snd av_xs av_len]
+    | rewrite N.add_0_l
+    | rewrite Hr
+    | rewrite ptr_write_next ].
   eexists. split; [reflexivity|].
-  unfold av_rep, set_av_len, set_av_xs. cbn [av_len av_xs].
+  unfold av_rep. cbn [av_len av_xs].
   split; [exact Hc|]. split; [|split].
   - rewrite Hr in Hx. rewrite len_app, len_map in Hx. rewrite len_app, len_map, len_app.
     unfold len in *. cbn [length] in *. lia.
@@ -245,7 +270,7 @@ Qed.
 Lemma g_avi_push_unchecked_full : forall v l x, rep v l -> len l = cap -> g_avi_push_unchecked T cap v x = None.
 Proof.
   intros v l x H Hfull. unfold g_avi_push_unchecked. cbv zeta. rewrite (g_avi_len_eq v l H). unfold avl_len.
-  rewrite Hfull, N.ltb_irrefl. reflexivity.
+  assert (Hge : cap <= len l) by lia. decide_ge Hge. reflexivity.
 Qed.
 
 Definition try_push_sim (r : option (avec T * (unit + av_cap_error T))) (m : list T * (unit + av_cap_error T)) : Prop :=
@@ -254,10 +279,10 @@ Definition try_push_sim (r : option (avec T * (unit + av_cap_error T))) (m : lis
 Lemma g_avi_try_push_eq : forall v l x, rep v l -> try_push_sim (g_avi_try_push T cap v x) (avl_try_push cap l x).
 Proof.
   intros v l x H. unfold g_avi_try_push, avl_try_push, try_push_sim. rewrite (g_avi_len_eq v l H). unfold avl_len.
-  destruct (len l <? cap) eqn:E.
-  - apply N.ltb_lt in E. destruct (g_avi_push_unchecked_room v l x H E) as (v' & Hp & Hrep).
+  destruct (N.lt_ge_cases (len l) cap) as [E|E].
+  - decide_lt E. destruct (g_avi_push_unchecked_room v l x H E) as (v' & Hp & Hrep).
     rewrite Hp. exists v'. split; [reflexivity|exact Hrep].
-  - exists v. split; [reflexivity|exact H].
+  - decide_ge E. exists v. split; [reflexivity|exact H].
 Qed.
 
 Lemma g_av_try_push_eq : forall v l x, rep v l -> try_push_sim (g_av_try_push T cap v x) (avl_try_push cap l x).
@@ -310,10 +335,10 @@ Qed.
 
 Lemma rep_firstn : forall v l n rest,
   rep v l -> n <= len l -> av_xs v = map Some l ++ rest ->
-  rep (set_av_xs (set_av_len v n) (map Some (firstn (N.to_nat n) l) ++ repeat None (N.to_nat (len l - n)) ++ rest))
+  rep (mkAvec n (map Some (firstn (N.to_nat n) l) ++ repeat None (N.to_nat (len l - n)) ++ rest))
       (firstn (N.to_nat n) l).
 Proof.
-  intros v l n rest (Hc & Hx & Hl & _) Hn Hr. unfold av_rep, set_av_xs, set_av_len. cbn [av_len av_xs].
+  intros v l n rest (Hc & Hx & Hl & _) Hn Hr. unfold av_rep. cbn [av_len av_xs].
   split; [exact Hc|]. split; [|split].
   - rewrite Hr in Hx. rewrite !len_app, !len_map in *. unfold len in *.
     rewrite firstn_length, repeat_length. lia.
@@ -326,16 +351,21 @@ Lemma g_avi_truncate_eq : forall v l n, rep v l ->
 Proof.
   intros v l n H. pose proof H as (Hc & Hx & Hl & rest & Hr). pose proof (rep_len_le v l H) as Hle.
   unfold g_avi_truncate, avl_truncate. cbv zeta. rewrite (g_avi_len_eq v l H). unfold avl_len.
-  destruct (n <? len l) eqn:E.
-  - apply N.ltb_lt in E.
-    rewrite g_avi_set_len_eq by (try exact Hc; lia).
-    rewrite g_avi_as_mut_ptr_eq. cbv beta iota zeta.
-    unfold csub. assert (Hle' : (n <=? len l) = true) by (apply N.leb_le; lia). rewrite Hle'.
-    cbn [fst snd]. unfold av_ptr_add. replace (0 + n) with n by lia.
-    unfold set_av_len at 1. cbn [av_xs]. rewrite Hr.
-    rewrite drop_in_place_tail by lia.
-    eexists. split; [reflexivity|]. apply rep_firstn; [exact H|lia|exact Hr].
-  - exists v. split; [reflexivity|exact H].
+  destruct (N.lt_ge_cases n (len l)) as [E|E].
+  - decide_lt E.
+    (* set_len and the drop of the tail, in whichever order the source has them *)
+    repeat first
+      [ rewrite g_avi_set_len_eq by (try exact Hc; lia)
+      | rewrite g_avi_as_mut_ptr_eq
+      | progress cbv beta iota zeta
+      | progress (unfold set_av_len, set_av_xs, av_ptr_add, csub)
+      | progress cbn [fst snd av_xs av_len]
+      | rewrite N.add_0_l
+      | rewrite Hr
+      | match goal with Hq : (?a <=? ?b) = _ |- context [?a <=? ?b] => rewrite Hq end
+      | rewrite drop_in_place_tail by lia ].
+    eexists. split; [reflexivity|]. apply (rep_firstn v); [exact H|lia|exact Hr].
+  - decide_ge E. exists v. split; [reflexivity|exact H].
 Qed.
 
 Lemma g_av_truncate_eq : forall v l n, rep v l ->
